@@ -346,8 +346,12 @@ pub fn judge_socket(to: Fmt, k: usize, via_stdin: bool, acc: &mut Acc) {
         acc.inconclusive += 1;
         return;
     }
+    let err = String::from_utf8_lossy(&out.stderr);
     if out.status == Status::Signal(libc::SIGPIPE) && out.stderr.is_empty() {
         acc.count("socket_killed_by_sigpipe_silently");
+    } else if out.status == Status::Exit(1) && err.starts_with("xt error") && err.contains("os error 104") {
+        // the kernel reported a connection reset instead of a broken pipe: "any other write failure"
+        acc.count("socket_connection_reset_reported_as_an_error");
     } else {
         acc.violation(Violation { sig: format!("stdout a socket whose peer left after {} bytes, to={}: {}", if k == 0 { "0".to_string() } else { "k".to_string() }, to.name(), out.status.show()), case: json!({"socket": true, "to": to.name(), "k": k, "stdin": via_stdin}), observed: format!("status {}, stderr [{}]", out.status.show(), preview(&out.stderr, 200)), expected: "killed by SIGPIPE with nothing on stderr".into() });
     }
